@@ -9,11 +9,11 @@ EXTENDS AstGen, Json, IOUtils
 Wraps == CASE Ctx = "bare" -> <<"bare">>
            [] Ctx = "legacy" -> <<"sh">>
            [] Ctx = "segwitv0" -> <<"wsh", "shwsh">>
-           [] Ctx = "tap" -> <<"tr">>
+           [] Ctx = "tap" -> <<"tr", "tr33">>
 
 BAsts0 == {x.a : x \in {y \in WTUpTo(MaxNodes) : y.t.b = "B" /\ KeyCanonical(y.a)}}
 
-BAsts == BAsts0 \cup CompKept \cup Comp2Kept \cup PrefixedKept
+BAsts == BAsts0 \cup CompKept \cup Comp2Kept \cup PrefixedKept \cup NestedChoice(NCKeep, CompSeed) \cup {x \in ThreshMix(NCKeep) : TypeOf(x, Ctx).b = "B"}
 
 WorldJson(w) == [sigs |-> SetToSeq(w.sigs), pre |-> SetToSeq(w.pre), env |-> w.env]
 
